@@ -6,8 +6,8 @@ from vf.core import Shard, rng_for
 PROPERTY = 'C06'
 RULE = ('single-reference maps of 60-300 labels with spacing >= 2-4 kb (mean 9-20 kb, integer or one-decimal coordinates, '
         'reference starting 1-30 kb from the origin), 12 planted queries per run: exact copies of interior windows of '
-        '15-45 labels at least 4 labels from either end, both strands, query offset 0/20/0-50 kb (with decimals), '
-        'trailing length 0.1 bp .. 30 kb, default parameters, output mode rotated; windows near the reference origin '
+        '15-45 labels at least 4 labels from either end, both strands, query offset 0/20/0-50 kb (with decimals) or '
+        'beyond the reference length (molecule kept in genome coordinates), trailing length 0.1 bp .. 30 kb or longer than the reference, default parameters, output mode rotated; windows near the reference origin '
         '(within the secondary margin) and queries whose first label is exactly at 0 are forced in a fixed share of '
         'runs. Oracle: the record exists in the file that carries un-joined first-pass records of that mode, names the '
         'reference, has the planted strand, exactly the true pairs, HitEnum nM, and every pair\'s recorded queryShift is '
@@ -15,7 +15,8 @@ RULE = ('single-reference maps of 60-300 labels with spacing >= 2-4 kb (mean 9-2
         '(reference window, strand, offset, trailing).')
 ASSUMPTIONS = ['the quantifier of C06 is followed literally: spacing >= 2 kb, mean >= 9 kb, window >= 4 labels from the ends']
 MINIMUMS = {'planted-queries': {'quick': 2500, 'thorough': 40000}, 'reverse-planted': {'quick': 1000, 'thorough': 15000},
-            'near-origin-windows': {'quick': 50, 'thorough': 800}, 'first-label-at-zero': {'quick': 100, 'thorough': 1500}}
+            'near-origin-windows': {'quick': 50, 'thorough': 800}, 'first-label-at-zero': {'quick': 100, 'thorough': 1500},
+            'offset-or-tail-beyond-reference-length': {'quick': 200, 'thorough': 3000}}
 
 
 def plan(tier, seed):
@@ -49,8 +50,8 @@ def make_case(rng):
         else:
             s = rng.randint(4, len(ref) - k - 4)
         sub = ref[s:s + k]
-        off = rng.choice([0, 0, 20, rng.randint(0, 50000)]) + (rng.choice([0, 0.3, 0.7]) if onedec else 0)
-        trail = rng.choice([0.1, 1, 250, rng.randint(1, 30000)])
+        off = rng.choice([0, 0, 20, rng.randint(0, 50000), rng.randint(0, 50000), int(reflen) + rng.randint(1, 10 ** 7)]) + (rng.choice([0, 0.3, 0.7]) if onedec else 0)
+        trail = rng.choice([0.1, 1, 250, rng.randint(1, 30000), rng.randint(1, 30000), int(reflen) + rng.randint(1, 10 ** 6)])
         rev = rng.random() < 0.5
         if not rev:
             q = [round(x - sub[0] + off, 1) for x in sub]
@@ -84,6 +85,8 @@ def judge(case, wd, sh):
             sh.count('near-origin-windows')
         if t['off'] == 0:
             sh.count('first-label-at-zero')
+        if t['off'] > case['refs'][0][1] or t['trail'] > case['refs'][0][1]:
+            sh.count('offset-or-tail-beyond-reference-length')
         sh.nt([case['refs'][0][2][t['pairs'][0][0] - 1], len(t['pairs']), t['ori'], t['off'], t['trail']])
         focus = {'query': qid, 'truth': t, 'file': suf}
         hit = recs.get(qid)
